@@ -795,13 +795,30 @@ func (g *gen) annotate(m *Message, fq string, c *fieldCtx) {
 			g.tagf("enum_value_field")
 		}
 	}
-	if can("flatten") && want("flatten") && !g.avoid("flatten") {
+	// KF-C04-1 (decoding loses the flattened child) rules flatten out where requests or client-side decoding
+	// are judged; where only what the server *sends* is judged it may still appear in response messages
+	isResponse := strings.HasSuffix(m.Name, "Response") && fq == g.s.Pkg+"."+m.Name
+	if can("flatten") && want("flatten") && !g.avoid("flatten") && (isResponse || !g.avoid("flatten_in_requests")) {
 		ref := g.variantMessage(true)
 		f := addField(KMessage, ref, Singular)
 		f.EnsureAnn().Flatten = true
 		if g.bool("flatprefix") {
 			f.Ann.FlattenPrefix = pick(g, []string{"billing_", "x", "p_"}, "prefix")
 			g.tagf("flatten_prefix")
+		}
+		// the flatten field itself is not on the wire: a promoted child may carry its name
+		delete(c.used, f.Name)
+		delete(c.used, "json:"+strings.ToLower(JSONName(f.Name)))
+		if child := g.msgDefs[ref]; child != nil && f.Ann.FlattenPrefix == "" && len(child.Fields) > 0 && g.oneIn(4, "flatsamename") &&
+			(!strings.Contains(f.Name, "_") || !g.avoidQuiet("child_encoding_json")) {
+			child.Fields[0].Name = f.Name
+			g.tagf("flatten:child_named_like_field")
+		}
+		if child := g.msgDefs[ref]; child != nil && p.feat("nullable") && p.Optionals && g.oneIn(3, "flatnullable") {
+			// an optional nullable field inside the flattened child (the child has its own codec)
+			child.Fields = append(child.Fields, &Field{Name: strings.ToLower(child.Name) + "nick", Number: 90, Kind: pick(g, []Kind{KString, KBool, KInt32}, "flatnullkind"), Card: Optional, Ann: &Ann{Nullable: true}})
+			g.feature[ref] = "nullable"
+			g.tagf("flatten:nullable_child_field")
 		}
 		// the promoted names (prefix + child field) must not meet a parent field, in proto or JSON spelling:
 		// the child is fresh, so its fields are renamed until they are free, and reserved for later fields
@@ -814,6 +831,8 @@ func (g *gen) annotate(m *Message, fq string, c *fieldCtx) {
 				c.used["json:"+strings.ToLower(JSONName(f.Ann.FlattenPrefix+cf.Name))] = true
 			}
 		}
+		c.used[f.Name] = true // still a proto field name of the parent
+		c.used["json:"+strings.ToLower(JSONName(f.Name))] = true
 		mark("flatten")
 	}
 	if (can("oneof_disc") || can("oneof_flat")) && len(m.Oneofs) == 0 && want("oneof") && !(p.ContractStrict && g.avoid("oneof_disc_openapi_schema")) {
